@@ -135,6 +135,34 @@ theorem C12_cmdline_padded_title (w : World) (t : Bytes) (hd : w.dirExists = tru
     rw [C12_cmdline_spec w _ hd hc]
     by_cases h32 : 32 ∈ t <;> simp [Spec.cmdlineOf, args, ht, h32]
 
+/-- **C12_cmdline_setproctitle.** End to end for the nginx / sshd / postgres way of rewriting a title: the
+    title `t` (no NUL) is written at `arg_start` over an argument area of `a` bytes followed by `e` bytes of
+    (moved-away) environment, the rest of the `a + e` bytes NUL-padded, and the kernel exposes
+    `kernelCmdline` of that memory. Then `cmdline()` returns: the title UNSPLIT followed by `a - |t| - 1` empty
+    strings when the title is at least two bytes shorter than the argument area (`sshd: user@pts/0`, `nginx:
+    worker process`); otherwise (it fills the area or overflows into the environment: `nginx: master process
+    …`) the single piece, split on spaces if it contains any. -/
+theorem C12_cmdline_setproctitle (w : World) (t : Bytes) (a e : Nat) (hd : w.dirExists = true)
+    (ht0 : 0 ∉ t) (hne : t ≠ []) (ha : 0 < a) (hfit : t.length < a + e)
+    (hc : w.cmdline = .data (kernelCmdline ((titleArea t (a + e)).take a) ((titleArea t (a + e)).drop a))) :
+    cmdline cfg w = .ok (if t.length + 1 < a then t :: List.replicate (a - t.length - 1) []
+                         else if 32 ∈ t then fields 32 t else [t]) := by
+  rw [kernelCmdline_title t a e ht0 hne ha hfit] at hc
+  by_cases h2 : t.length + 1 < a
+  · obtain ⟨k, hk⟩ : ∃ k, a - t.length = k + 2 := ⟨a - t.length - 2, by omega⟩
+    have hk' : a - t.length - 1 = k + 1 := by omega
+    rw [if_pos (by omega), hk] at hc
+    rw [if_pos h2, hk']
+    exact (C12_cmdline_padded_title w t hd ht0).1 k hc
+  · rw [if_neg h2]
+    have hc' : w.cmdline = .data (t ++ [0]) := by
+      by_cases h1 : t.length < a
+      · have : a - t.length = 1 := by omega
+        rw [if_pos h1, this] at hc
+        simpa using hc
+      · rw [if_neg h1] at hc; exact hc
+    exact (C12_cmdline_padded_title w t hd ht0).2 hc'
+
 /-- **C12_cmdline_unterminated.** A file whose last byte is not NUL — a title written without one, or an
     argument vector cut by a kernel that serves at most one page — is read as a space-separated title: the
     NULs it contains stay INSIDE the returned strings (joining the result with spaces gives the file back,
@@ -648,6 +676,12 @@ def wSshd : World :=
 
 /-- `sshd: u@pts/0` + 4 NULs → the title unsplit and three empty strings -/
 example : cmdline cfg wSshd = .ok [[115,115,104,100,58,32,117,64,112,116,115,47,48], [], [], []] := by decide
+
+/-- the same file derived from memory: `sshd: u@pts/0` written over the 17-byte argument area of
+    `/usr/sbin/sshd NUL -D NUL` followed by 7 bytes of environment -/
+example : kernelCmdline ((titleArea [115,115,104,100,58,32,117,64,112,116,115,47,48] 24).take 17)
+      ((titleArea [115,115,104,100,58,32,117,64,112,116,115,47,48] 24).drop 17)
+    = [115,115,104,100,58,32,117,64,112,116,115,47,48,0,0,0,0] := by decide
 
 /-- `strcpy(argv[0], "w k")` over `/bin/py NUL s.py NUL`: title, then what is left of the old argv -/
 example : cmdline cfg { wEx with cmdline := .data [119,32,107,0,110,47,112,121,0,115,46,112,121,0] }
